@@ -155,6 +155,8 @@ class ClassLocks:
 
 
 def _only_exits(body: List[ast.stmt]) -> bool:
+    from ..astutil import effective
+    body = effective(body)
     for st in body:
         if isinstance(st, ast.Return):
             if st.value is not None and not isinstance(st.value, (ast.Constant, ast.Name)):
